@@ -14,14 +14,19 @@ RULE_TEXT = "obligation = (rule, type / table entry / merge shape); evaluations 
 
 
 def run(ctx) -> None:
-    for name, fn in (("W1", codec.rule_W1), ("W1-neg", _neg), ("W2", codec.rule_W2), ("W3", codec.rule_W3), ("W4", codec.rule_W4),
-                     ("T2", codec.rule_T2), ("T3", codec.rule_T3)):
+    for name, fn in (("W1", codec.rule_W1), ("W1-neg", _neg), ("W2", codec.rule_W2), ("W3", codec.rule_W3), ("W4", codec.rule_W4), ("N3", varint.rule_N3), ("N5", _n5),
+                     ("T2", codec.rule_T2), ("T2b", codec.rule_T2b), ("T3", codec.rule_T3)):
         ctx.rules_run.append(name)
         fn(ctx)
     ctx.rules_run.append("D2")
     presence.rule_D2(ctx)   # the reference's HasField / WhichOneof sees a member only if dump emits it
     ctx.floor("W1", "table entries", len([o for o in ctx.obs if o.rule == "W1"]), 30)
     ctx.assume("google.protobuf's pure-python tables describe the reference wire format (cross-checked with the embedded spec table)")
+
+
+def _n5(ctx) -> None:
+    from . import decode
+    decode.rule_N5(ctx)
 
 
 def _neg(ctx) -> None:
